@@ -94,7 +94,9 @@ class Gen:
         rng = self.rng
         n = nmembers if nmembers is not None else rng.randint(1, 6)
         names = rng.sample([a + b for a in ["A", "Get", "Set", "Do", "X", "Type", "Err"] for b in ["", "1", "Foo", "B"]], n)
-        ms = [self.member(rng.choice(["type", "method", "method", "error"]), nm, depth) for nm in names]
+        kinds = [rng.choice(["type", "method", "method", "error"]) for nm in names]
+        self.last_members = list(zip(kinds, names))     # what was written, for oracles that do not go through a parser
+        ms = [self.member(k, nm, depth) for k, nm in zip(kinds, names)]
         sep = lambda: (rng.choice(WS) * rng.randint(0, 2) + rng.choice(EOLS)) if self.trivia and rng.random() < 0.5 else "\n"
         head = self.doc() + "interface" + " " + rng.choice(INAMES) + sep()
         body = ms[0]
@@ -208,12 +210,15 @@ def c11(ck):
     g = Gen(rng, trivia=True)
     gp = Gen(rng, trivia=False)
     valid = list(CORPUS)
+    written = {}
     for _ in range(150 if quick else 1500):
         valid.append(g.idl())
+        written[valid[-1]] = g.last_members
     for _ in range(50 if quick else 400):
         valid.append(gp.idl())
+        written[valid[-1]] = gp.last_members
     for t in valid:
-        add("valid", t)
+        add("valid", t, written.get(t))
     for t in valid[:(60 if quick else 600)]:
         for mtext in mutations(rng, t, 3 if quick else 6):
             add("mutant", mtext)
@@ -274,7 +279,8 @@ def c11(ck):
             nd += 1
             if nd <= 5:
                 ck.tie_broken.append("model/implementation disagree on %s text %r: impl=%s model=%s" % (kind, text[:200], a[:200], model[cid][:200]))
-            if a.startswith("ok") and model[cid].startswith("ok"):
+            # (the two promotions below rest on the theorems of C11.v: they apply only while those are proved for the model at hand)
+            if a.startswith("ok") and model[cid].startswith("ok") and not ck.proof_broken:
                 # same reasoning for the structure: the model parser returns exactly the tree the grammar's rendering
                 # relation assigns to the text (names, member order, types, docs trimmed of the grammar's blanks)
                 ia, ma = ast_of(a), ast_of(model[cid])
@@ -282,7 +288,7 @@ def c11(ck):
                 ck.failures.append({"what": "the parsed structure does not mirror the source (it differs from the tree the grammar assigns to the text)",
                                     "text": text[:600], "differs_in": diff_keys[:4],
                                     "parser": json.dumps(ia, ensure_ascii=True)[:400], "grammar": json.dumps(ma, ensure_ascii=True)[:400]})
-            if a.startswith("ok") != model[cid].startswith("ok") and kind != "dup":
+            if a.startswith("ok") != model[cid].startswith("ok") and kind != "dup" and not ck.proof_broken:
                 # the model parser is proved to accept exactly the renderings of the grammar (C11_accepted_iff_rendered):
                 # a text on which the verdicts differ is accepted without following the grammar, or rejected although it does
                 ck.failures.append({"what": "the parser %s a text that the varlink grammar %s" % (
@@ -292,6 +298,15 @@ def c11(ck):
                 "accepted" if a.startswith("ok") else "rejected", "is" if info else "is not"), "text": text[:300]})
         if kind == "valid" and not a.startswith("ok"):
             ck.failures.append({"what": "a text that follows the grammar was rejected", "text": text[:800], "result": a[:200]})
+        if kind == "valid" and a.startswith("ok") and info:
+            # the members the generator wrote, by kind and in source order, independent of any parser
+            t_ast = ast_of(a)
+            got = {"type": [x["name"] for x in t_ast.get("typedefs", [])], "method": [x["name"] for x in t_ast.get("methods", [])],
+                   "error": [x["name"] for x in t_ast.get("errors", [])]}
+            want = {k: [nm for kk, nm in info if kk == k] for k in ("type", "method", "error")}
+            if got != want:
+                ck.failures.append({"what": "the parsed definition does not have the members the text declares (by kind, in source order)",
+                                    "text": text[:800], "declared": want, "parsed": got})
         if kind == "iname":
             should = bool(spec_re.match(info))
             if a.startswith("ok") != should:
@@ -313,7 +328,7 @@ def c12(ck):
     if not ok:
         return
     ck.rule = ("random Unicode strings, byte-level mutations of valid definitions re-validated as UTF-8, every prefix of each corpus definition, all five line-ending conventions, "
-               "type nesting depth up to 200; each parsed under catch_unwind with a time limit on a default-stack thread; non-trivial = not a valid definition; distinct by text")
+               "type nesting depth up to 200, names defined 2..5 times; each parsed under catch_unwind with a time limit on a default-stack thread; non-trivial = not a valid definition; distinct by text")
     texts = []
     g = Gen(rng, trivia=True)
     base = list(CORPUS) + [g.idl() for _ in range(6 if quick else 40)]
@@ -359,6 +374,21 @@ def c12(ck):
     for n in ([70000] if quick else [65534, 65535, 65536, 70000, 200000]):
         texts.append(("longline", "interface a.b\nmethod M(a: int, " + "b" * n + " !) -> ()\n"))
         texts.append(("longline", "interface a.b\r# " + "x" * n + "\rmethod M( -> ()\r"))
+    # grammatical texts that the semantic pass rejects: the same name defined 2..5 times, for each member kind and across
+    # kinds, adjacent and with other members in between (an error value, never a panic)
+    decl = {"t": lambda nm: "type %s (a: int)" % nm, "m": lambda nm: "method %s() -> ()" % nm, "e": lambda nm: "error %s (x: string)" % nm}
+    for kinds in (["t"], ["m"], ["e"], ["t", "m"], ["m", "e"], ["t", "e"], ["t", "m", "e"]):
+        for reps in (2, 3, 4, 5):
+            for spaced in (False, True):
+                ms = []
+                for r in range(reps):
+                    ms.append(decl[kinds[r % len(kinds)]]("Same"))
+                    if spaced:
+                        ms.append(decl[rng.choice("tme")]("Other%d" % r))
+                texts.append(("dup", "interface a.b\n" + "\n".join(ms) + "\nmethod Last() -> ()\n"))
+    for _ in range(20 if quick else 300):
+        names = [rng.choice(["A", "B", "C"]) for _ in range(rng.randint(2, 9))]
+        texts.append(("dup", "interface a.b\n" + "\n".join(decl[rng.choice("tme")](nm) for nm in names) + "\n"))
     lines, meta = [], {}
     for i, (kind, t) in enumerate(texts):
         lines.append("t%d parse %s" % (i, hx(t)))
